@@ -15,6 +15,12 @@ Decided (structural necessary conditions of the over-approximation):
  R4  sequencing/merge shape: ``_visit_body`` accumulates ``uses`` *before*
      ``defines`` (used-before-defined), and branch nodes union the defines of
      all their bodies.
+ R5  alternatives are not chained: in handlers of nodes with mutually exclusive
+     bodies (IF/ELSE, SELECT CASE, WHERE/ELSEWHERE) the reads of one alternative
+     are not reduced by the writes of a sibling alternative (no ``defines=``
+     hand-over between alternatives, no subtraction of sibling defines).
+ R6  kill-set provenance in ``visit_CallStatement``: the symbols removed from
+     the call's defines (array subscripts) derive from the out/inout actuals only.
 Not decided: aliasing, array sections, interprocedural effects.
 """
 import ast
@@ -276,6 +282,86 @@ def run(ctx):
         else:
             ctx.judge('R4', f'{hn}:merge')
 
+    # ---- R5
+    ctx.rule('R5', 'handlers of nodes with alternative bodies never pass the defines of one alternative as kill set to '
+                   'another (_visit_body(..., defines=...)) and never subtract body defines from uses')
+    for hn in ('visit_Conditional', 'visit_MultiConditional', 'visit_MaskedStatement'):
+        f = A.function(hn)
+        # names bound to the `defines` result (2nd element) of _visit_body calls, and accumulators thereof
+        dnames = set()
+        for n in ast.walk(f.node):
+            if isinstance(n, ast.Assign) and isinstance(n.targets[0], ast.Tuple) and isinstance(n.value, ast.Call) \
+                    and X.dotted_attr(n.value.func) == 'self._visit_body' and len(n.targets[0].elts) == 3:
+                t = n.targets[0].elts[1]
+                if isinstance(t, ast.Name):
+                    dnames.add(t.id)
+        changed = True
+        while changed:
+            changed = False
+            for n in ast.walk(f.node):
+                if isinstance(n, (ast.Assign, ast.AugAssign)):
+                    tgt = n.targets[0] if isinstance(n, ast.Assign) else n.target
+                    if isinstance(tgt, ast.Name) and tgt.id not in dnames and X._names_in(n.value) & dnames:
+                        if not (isinstance(n.value, ast.Call) and X.dotted_attr(n.value.func) == 'self._visit_body'):
+                            dnames.add(tgt.id)
+                            changed = True
+        calls = [c for c in ast.walk(f.node) if isinstance(c, ast.Call) and X.dotted_attr(c.func) == 'self._visit_body']
+        if not calls:
+            raise AnalysisError(f'{hn}: no _visit_body call')
+        bad = [c for c in calls if any(k.arg == 'defines' for k in c.keywords)]
+        subs = [n for n in ast.walk(f.node) if ((isinstance(n, ast.BinOp) and isinstance(n.op, ast.Sub) and X._names_in(n.right) & dnames)
+                                                 or (isinstance(n, ast.AugAssign) and isinstance(n.op, ast.Sub) and X._names_in(n.value) & dnames))]
+        if bad:
+            ctx.violation('R5', f'{hn}:defines-handover', f'{f.module.relpath}:{bad[0].lineno}',
+                          f'`{ast.unparse(bad[0])}` hands the symbols defined by earlier alternatives to the next alternative as '
+                          f'kill set: a variable written in one branch and read in another (mutually exclusive) branch disappears '
+                          f'from uses_symbols', facts={'defines_names': sorted(dnames)})
+        elif subs:
+            ctx.violation('R5', f'{hn}:defines-subtracted', f'{f.module.relpath}:{subs[0].lineno}',
+                          f'`{ast.unparse(subs[0])}` removes symbols defined in a sibling alternative from the uses of this one')
+        else:
+            ctx.judge('R5', hn, facts={'visit_body_calls': len(calls), 'defines_names': sorted(dnames)})
+
+    # ---- R6
+    ctx.rule('R6', 'in the enriched branch of visit_CallStatement the set filtered out of defines (`dims`) derives only from outvals')
+    ifn = [n for n in ast.walk(cs.node) if isinstance(n, ast.If) and ast.unparse(n.test) == 'o.routine']
+    if not ifn:
+        raise AnalysisError('visit_CallStatement: `if o.routine` not found')
+    enr = ast.Module(body=ifn[0].body, type_ignores=[])
+    # provenance over local names: which of {outvals, invals} a name derives from
+    prov = {'outvals': {'outvals'}, 'invals': {'invals'}}
+    changed = True
+    while changed:
+        changed = False
+        for n in ast.walk(enr):
+            pairs = []
+            if isinstance(n, ast.Assign) and isinstance(n.targets[0], ast.Name) and n.targets[0].id not in ('outvals', 'invals'):
+                pairs.append((n.targets[0].id, n.value))
+            elif isinstance(n, ast.comprehension):
+                for t in ast.walk(n.target):
+                    if isinstance(t, ast.Name):
+                        pairs.append((t.id, n.iter))
+            for nm, val in pairs:
+                src = set()
+                for x in X._names_in(val):
+                    src |= prov.get(x, set())
+                if src - prov.get(nm, set()):
+                    prov[nm] = prov.get(nm, set()) | src
+                    changed = True
+    filt = [n for n in ast.walk(enr) if isinstance(n, ast.Compare) and isinstance(n.ops[0], (ast.In, ast.NotIn))
+            and isinstance(n.comparators[0], ast.Name)]
+    kill = {n.comparators[0].id for n in filt}
+    if not kill:
+        raise AnalysisError('visit_CallStatement: defines filter `not e in <set>` not found')
+    for kname in sorted(kill):
+        src = prov.get(kname, set())
+        if src <= {'outvals'} and src:
+            ctx.judge('R6', f'kill set {kname}', facts={'derives_from': sorted(src)})
+        else:
+            ctx.violation('R6', f'visit_CallStatement:kill-set:{kname}', cs.where,
+                          f'symbols removed from the defines of an enriched call (`{kname}`) derive from {sorted(src)}: a subscript of an '
+                          f'intent(in) actual that is also passed to an out/inout dummy is dropped from defines_symbols')
+
 
 MUTANTS = [
     Mutant('drop-handler', FILE, "    visit_Nullify = visit_Deallocation\n", "", expect=('R2', 'Nullify.variables'), quick=True),
@@ -299,6 +385,12 @@ MUTANTS = [
            "        uses = self._symbols_from_expr(o.condition)\n        body, defines, uses = self._visit_body(o.body, live=live, uses=uses, **kwargs)",
            "        body, defines, uses = self._visit_body(o.body, live=live, **kwargs)",
            expect=('R2', 'WhileLoop.condition')),
+    Mutant('case-branches-sequential', FILE,
+           "            _b, _d, uses = self._visit_body(b, live=live, uses=uses, **kwargs)\n",
+           "            _b, _d, _u = self._visit_body(b, live=live, **kwargs)\n            uses |= _u - defines\n",
+           expect=('R5', 'visit_MultiConditional')),
+    Mutant('dims-from-invals', FILE, "arrays = [v for v in FindVariables().visit(outvals) if isinstance(v, Array)]",
+           "arrays = [v for v in FindVariables().visit(outvals + invals) if isinstance(v, Array)]", expect=('R6', 'kill-set')),
     Mutant('neutral-rename', FILE, "        rset = OrderedSet(v for v in FindVariables().visit(o.rhs) if not v in query_args)",
            "        rset = OrderedSet(vv for vv in FindVariables().visit(o.rhs) if not vv in query_args)", expect=None),
     Mutant('neutral-new-handler', FILE, "    visit_Nullify = visit_Deallocation\n",
